@@ -82,6 +82,18 @@ func tampers(genuineLen int, L, k int, thorough bool, bitStride int) []tamper {
 			return &syncfx.Fault{Kind: "declared-stall", Status: len(g), Body: append([]byte(nil), g[:cut]...), Label: "trunc-left-open"}
 		}})
 	}
+	// the body breaks off because the connection is reset (the error a libp2p
+	// stream reports, network.ErrReset); the next request for the same block
+	// gets the whole block
+	for _, cut := range []int{0, 1, genuineLen / 2, genuineLen - 1} {
+		cut := cut
+		if cut < 0 || cut >= genuineLen || (cut == 1 && genuineLen <= 2) {
+			continue
+		}
+		out = append(out, tamper{fmt.Sprintf("reset-mid-body-%d", cut), "connection-reset-mid-body", func(g []byte, _ [][]byte) *syncfx.Fault {
+			return &syncfx.Fault{Kind: "reset", Status: len(g), Body: append([]byte(nil), g[:cut]...), Label: "reset-mid-body"}
+		}})
+	}
 	for _, n := range []int{1, 1024, 1 << 20} {
 		n := n
 		if n == 1<<20 && !thorough && k > 0 {
@@ -129,7 +141,7 @@ func firstLine(s string) string {
 
 func TestCheck(t *testing.T) {
 	r := vp.New("C02", "fault_enumeration",
-		"for every multihash function of the tier x chain kind (real signed advertisements with the strict selector; small generic map chains, and a generic DAG with fan-out in which every block is followed by further requests of the same walk, with the non-strict selector) x chain length L x segmented/unsegmented x every block-request position k: the body of block k is replaced by every single-bit flip (all bits of the small blocks, strided on real advertisements), every truncation length with consistent and with the original Content-Length, truncations after which the response is left open until the client's own time-out ends the request, appended bytes (1, 1 KiB, 1 MiB), every other valid block of the chain, an empty body, the same node re-serialised with whitespace; then a healthy sync and a third sync tampered at another position on the same subscriber. Non-trivial: every tampered run. Distinct = distinct (scenario, tamper).",
+		"for every multihash function of the tier x chain kind (real signed advertisements with the strict selector; small generic map chains, and a generic DAG with fan-out in which every block is followed by further requests of the same walk, with the non-strict selector) x chain length L x segmented/unsegmented x every block-request position k: the body of block k is replaced by every single-bit flip (all bits of the small blocks, strided on real advertisements), every truncation length with consistent and with the original Content-Length, truncations after which the response is left open until the client's own time-out ends the request, the body breaking off because the connection is reset (the client's read fails with network.ErrReset, as on a libp2p stream) with the whole block served on the next request, appended bytes (1, 1 KiB, 1 MiB), every other valid block of the chain, an empty body, the same node re-serialised with whitespace; then a healthy sync and a third sync tampered at another position on the same subscriber. Non-trivial: every tampered run. Distinct = distinct (scenario, tamper).",
 		"hash functions are trusted to be collision resistant for the enumerated single alterations",
 		"quick tier strides bit flips and truncations of real advertisements (every 11th); small map blocks are enumerated bit by bit",
 	)
